@@ -78,9 +78,15 @@ Definition seq_sched (n : nat) : list (nat * nat) := repeat (0, 1)%nat (n - 1).
 
 Definition conn_ends (cs : list conn) : list spin := map fst cs ++ map snd cs.
 
+Definition allpins (live : list (lst K)) : list spin := concat (map (@l_pins K) live).
+
 Definition solve (net : netlist K) (sched : list (nat * nat)) : result (lst K) :=
+  let live0 := map lst_of_comp (comps net) in
+  (* one connection per pin; structures are distinct; connections join pins that exist *)
   if negb (nodupb (conn_ends (conns net))) then Err EAlreadyConnected else
-  do live <- solve_sched (conns net) (map lst_of_comp (comps net)) sched;
+  if negb (nodupb (allpins live0)) then Err ENameClash else
+  if negb (forallb (fun p => mem p (allpins live0)) (conn_ends (conns net))) then Err ENoSuchPin else
+  do live <- solve_sched (conns net) live0 sched;
   match live with
   | [T] =>
       (* a pin that still has a partner would mean an accepted connection was left out *)
@@ -97,4 +103,4 @@ End Solve.
 
 Arguments links {K}. Arguments part {K}. Arguments assemble {K}. Arguments join {K}.
 Arguments merge_step {K}. Arguments solve_sched {K}. Arguments solve {K}. Arguments coeff {K}.
-Arguments dlst {K}.
+Arguments dlst {K}. Arguments allpins {K}.
